@@ -26,6 +26,10 @@ pub struct G {
     pub c1: bool,
     /// allow 65535-class counts
     pub huge: bool,
+    /// allow XTWINOPS resize requests in raw input
+    pub xtwinops: bool,
+    /// ... including 65535 x 65535 (parser-level checks only: honoured, it would ask for 4G cells)
+    pub xtwinops_huge: bool,
     /// category weights (see `CAT_*`)
     pub w: [usize; NCAT],
 }
@@ -71,6 +75,8 @@ impl G {
             raw: false,
             c1: true,
             huge: true,
+            xtwinops: false,
+            xtwinops_huge: false,
             w: [
                 10, // text
                 6,  // c0
@@ -454,7 +460,9 @@ pub fn raw(src: &mut Src, g: &G) -> String {
                     s.push_str(&src.pick(&[0usize, 1, 4, 6, 7, 20, 25, 38, 48, 5, 2, 1049, 47, 255, 65535]).to_string());
                 }
             }
-            s.push(*src.pick(&['m', 'h', 'l', 'H', 'r', 'A', 'b', 't']));
+            let f = *src.pick(&['m', 'h', 'l', 'H', 'r', 'A', 'b', 't']);
+            // a first parameter of 8 with final t would be an XTWINOPS resize request (see below)
+            s.push(if f == 't' && !g.xtwinops { 'n' } else { f });
         }
         3 => {
             // many sub-parameters
@@ -503,7 +511,15 @@ pub fn raw(src: &mut Src, g: &G) -> String {
         }
         9 => {
             // XTWINOPS & ED 3 & unknown selectors
-            s.push_str(*src.pick(&["\x1b[8;5;10t", "\x1b[8;0;0t", "\x1b[8;65535;65535t", "\x1b[8t", "\x1b[3J", "\x1b[4J", "\x1b[3K", "\x1b[1g", "\x1b[1W", "\x1b[4g", "\x1b[8;1;1t"]));
+            // XTWINOPS resize requests (parsed, ignored by the terminal today) only where the
+            // judge does not track the size itself (C01, C03): if the request were honoured,
+            // size() would legitimately change without a resize() call
+            if g.xtwinops && src.chance(1, 2) {
+                let big = if g.xtwinops_huge { "\x1b[8;65535;65535t" } else { "\x1b[8;120;300t" };
+                s.push_str(*src.pick(&["\x1b[8;5;10t", "\x1b[8;0;0t", big, "\x1b[8t", "\x1b[8;1;1t"]));
+            } else {
+                s.push_str(*src.pick(&["\x1b[3J", "\x1b[4J", "\x1b[3K", "\x1b[1g", "\x1b[1W", "\x1b[4g", "\x1b[9t", "\x1b[7;1;1t"]));
+            }
         }
         10 => {
             // DEL and C0 inside sequences
